@@ -4,6 +4,8 @@ import (
 	"errors"
 	"fmt"
 	"strings"
+	"unicode"
+	"unicode/utf8"
 
 	"github.com/arnodel/golua/lib/packagelib"
 	"github.com/arnodel/golua/luastrings"
@@ -147,8 +149,27 @@ func lower(t *rt.Thread, c *rt.GoCont) (rt.Cont, error) {
 		return nil, err
 	}
 	t.RequireBytes(len(s))
-	s = strings.ToLower(string(s))
+	s = mapCase(s, unicode.ToLower)
 	return c.PushingNext1(t.Runtime, rt.StringValue(s)), nil
+}
+
+// mapCase applies f to every character of s.  Bytes that are not part of a
+// valid UTF-8 sequence are not characters: they are left unchanged
+// (strings.ToUpper / ToLower would replace each of them with U+FFFD).
+func mapCase(s string, f func(rune) rune) string {
+	var b strings.Builder
+	b.Grow(len(s))
+	for i := 0; i < len(s); {
+		r, sz := utf8.DecodeRuneInString(s[i:])
+		if r == utf8.RuneError && sz <= 1 {
+			b.WriteByte(s[i])
+			i++
+			continue
+		}
+		b.WriteRune(f(r))
+		i += sz
+	}
+	return b.String()
 }
 
 func upper(t *rt.Thread, c *rt.GoCont) (rt.Cont, error) {
@@ -160,7 +181,7 @@ func upper(t *rt.Thread, c *rt.GoCont) (rt.Cont, error) {
 		return nil, err
 	}
 	t.RequireBytes(len(s))
-	s = strings.ToUpper(string(s))
+	s = mapCase(s, unicode.ToUpper)
 	return c.PushingNext1(t.Runtime, rt.StringValue(s)), nil
 }
 
